@@ -84,6 +84,6 @@ m = dict(version=1,
                     baseline_off_cmd="cd /repo && cargo nextest run --workspace --no-fail-fast --test-threads 8 --offline", source_commits=[], add_only=True),
          engines=[dict(name="tlc+pv", path="/verif/check", serves_properties=sorted(CHECKS), kind_free_text="explicit TLA+ specs (spec/*.tla) checked by TLC; bound to the code by pv (harness/): a ptrace supervisor that replays TLC-generated cases into the real library and records traces that TLC validates")],
          checks=checks, not_applicable=na,
-         notes="See DESIGN.md. Genuine defects found are in known_findings.json (fixed: three 'fix:' commits in /repo).")
+         notes="See DESIGN.md. Genuine defects found are in known_findings.json (fixed: 19 'fix:' commits in /repo, listed with their witnesses under 'fixed'; recorded findings under 'findings').")
 json.dump(m, open(os.path.join(V, "MANIFEST.json"), "w"), indent=1)
 print("claimed:", sorted(CHECKS), "not_applicable:", [x["property_id"] for x in na])
